@@ -476,6 +476,11 @@ class Compiler(compiler.Compiler):
             return
 
         permitted_alphabet = type_descriptor['from']
+
+        if None in permitted_alphabet:
+            # An extensible permitted alphabet admits every character.
+            return
+
         value = ''
 
         for item in permitted_alphabet:
